@@ -75,14 +75,19 @@ namespace nmtools::index
                 }
 
                 auto extra_dim = dst_dim - src_dim;
+                // the unit axis (which broadcasts against the out-features axis of the weight) goes right before
+                // the last two axes, so that every leading (batch) axis stays in front of it
+                auto n_lead = extra_dim ? src_dim - 2 : src_dim;
 
-                at(result,0) = at(input_shape,0);
-
-                for (nm_size_t i=1; i<(nm_size_t)dst_dim; i++) {
+                for (nm_size_t i=0; i<(nm_size_t)dst_dim; i++) {
                     at(result,i) = 1;
                 }
 
-                for (nm_size_t i=1+extra_dim; i<(nm_size_t)dst_dim; i++) {
+                for (nm_size_t i=0; i<(nm_size_t)n_lead; i++) {
+                    at(result,i) = at(input_shape,i);
+                }
+
+                for (nm_size_t i=n_lead+extra_dim; i<(nm_size_t)dst_dim; i++) {
                     at(result,i) = at(input_shape,i-extra_dim);
                 }
             }
